@@ -497,6 +497,22 @@ def run_replay(modname, path):
     with open(path) as f:
         body = json.load(f)
     case = body["witness"]["case"]
+    from . import set_logging
+
+    # the case is replayed in both logging environments of a full run (the library's DEBUG logging on / logging
+    # disabled), twice each; what either reproduces counts
+    found = []
+    for logging_on in (True, False):
+        set_logging(logging_on)
+        rc, sigs = _replay_once(mod, case, path)
+        if rc == 2:
+            return 2
+        found += [s for s in sigs if s not in found]
+    set_logging(True)
+    return _report_replay(mod, path, found)
+
+
+def _replay_once(mod, case, path):
     sigs = []
     for _ in range(2):
         acc = Acc(0)
@@ -511,13 +527,24 @@ def run_replay(modname, path):
         sigs.append(sorted(acc.viol))
     if sigs[0] != sigs[1]:
         print(f"REPLAY-NONDETERMINISTIC {path}: {sigs}")
-        return 2
-    if sigs[0]:
+        return 2, []
+    return 0, sigs[0]
+
+
+def _report_replay(mod, path, found):
+    known = load_known()
+    fresh, listed = [], []
+    for s in found:
+        k = match_known(mod.ID, json.loads(s), known)
+        (listed if k else fresh).append((s, k))
+    for s, k in listed:  # (as in a full run: a recorded finding is named, it is not a violation)
+        print(f"KNOWN-FINDING: property={mod.ID} {k['id']}: {k.get('what', '')[:160]}")
+    if fresh:
         print(f"VIOLATION property={mod.ID} replay={path}")
-        for s in sigs[0]:
+        for s, _ in fresh:
             print(f"  signature={s}")
         return 1
-    print(f"replay {path}: not reproduced on {REPO}")
+    print(f"replay {path}: {'only recorded findings reproduced' if listed else 'not reproduced'} on {REPO}")
     return 0
 
 
